@@ -33,21 +33,21 @@ Theorem C17_clone_before_activation :
 Proof. exact clone_async_keeps_pending_activation. Qed.
 Print Assumptions C17_clone_before_activation.
 
-(* the clone's registry is the original's (constructor-built machine) ... *)
+(* the clone's registry is the original's: __setstate__ replays the registration rounds (the constructor's,
+   then one per add_listener call) - whatever they were *)
 Theorem C17_clone_registry_is_original :
-  forall md r, md_rounds md = [r] -> NoDup r -> md_erounds md = 1 -> clone_md md = md.
-Proof. exact clone_md_same. Qed.
+  forall md, clone_md md = md.
+Proof. exact clone_md_id. Qed.
 Print Assumptions C17_clone_registry_is_original.
 
 (* ... hence, after any history (any idle configuration [c]), going on with the clone gives exactly
    the observations of going on with the original, for every suffix of operations *)
 Theorem C17_clone_responds_like_original :
-  forall beh md r f c s ops,
-    md_rounds md = [r] -> NoDup r -> md_erounds md = 1 ->
+  forall beh md f c s ops,
     rm_rtc (resolve md) = true -> rm_async (resolve md) = false ->
     idle c -> depth c = 0 -> field c = Some s -> log c = [] -> amb c = false -> ambc c = false ->
     tl (run_ops beh md (S f) (OClone :: ops) c) = run_ops beh md (S f) ops c.
-Proof. exact clone_then_suffix_equals_suffix. Qed.
+Proof. exact clone_then_suffix_equals_suffix_any_rounds. Qed.
 Print Assumptions C17_clone_responds_like_original.
 
 (* whatever rounds the original was resolved in, for every group but the guard list the clone's
@@ -59,14 +59,15 @@ Theorem C17_clone_has_the_callbacks_of_its_original :
 Proof. exact clone_has_the_callbacks_of_its_original. Qed.
 Print Assumptions C17_clone_has_the_callbacks_of_its_original.
 
-(* without the single-round hypothesis the statement is false of the faithful model (deviation D25, known
-   finding, replayed on the real library by the check): an `unless` guard name provided by the model and
-   by a listener attached later regroups on the clone, which then fires an event its original refuses *)
-Theorem C17_clone_responds_like_original_refuted :
-  exists md ops,
-    tl (map o_out (run_ops says md 10 (OClone :: ops) at_closed)) <> map o_out (run_ops says md 10 ops at_closed).
-Proof. exact clone_responds_like_original_refuted. Qed.
-Print Assumptions C17_clone_responds_like_original_refuted.
+(* until the repair D30 the theorem above carried the hypothesis "one resolution round" and was refuted without it
+   (an `unless` guard name provided by the model and by a listener attached later regrouped on the clone, which
+   then fired an event its original refuses - the C17 half of deviation D25); the witness of that refutation now
+   behaves: the clone of the door with the late blocking listener refuses the event as its original does *)
+Theorem C17_clone_of_the_late_listener_door_refuses_too :
+  tl (map o_out (run_ops says (door [[0; 1]; [2]]) 10 [OClone; open_] at_closed))
+  = map o_out (run_ops says (door [[0; 1]; [2]]) 10 [open_] at_closed).
+Proof. exact clone_of_the_door_refuses_too. Qed.
+Print Assumptions C17_clone_of_the_late_listener_door_refuses_too.
 
 (* independence: original and clone are two objects of the process; driving one - any operations, in
    any interleaving with the other's - never changes what the other returns, raises, stores or logs,
@@ -83,5 +84,5 @@ Example C17_nonvacuous :
   clone_md {| md_states := []; md_trans := []; md_start := 0; md_rtc := true; md_allow := true;
               md_providers := [[]; []; []; []]; md_coro := []; md_rounds := [[0; 1; 2]; [3]; [3]]; md_erounds := 1 |}
   = {| md_states := []; md_trans := []; md_start := 0; md_rtc := true; md_allow := true;
-       md_providers := [[]; []; []; []]; md_coro := []; md_rounds := [[0; 1; 2; 3]]; md_erounds := 1 |}.
+       md_providers := [[]; []; []; []]; md_coro := []; md_rounds := [[0; 1; 2]; [3]; [3]]; md_erounds := 1 |}.
 Proof. vm_compute. reflexivity. Qed.
